@@ -233,6 +233,25 @@ def run(chk):
             continue
         chk.ob("O10.2", f"Documents.{param} stores its parameter", dstored.get(param) in (param, "_" + param), DI, f"stored in self.{dstored.get(param)}", key=f"{_T}:Documents.__init__:{param}")
 
+    # a default invented from the FIRST element of a collection is only sound when the collection has exactly one element; otherwise the key stays mandatory downstream
+    from sa import pat
+    n_first = 0
+    for c in source.calls_in(cr):
+        if u(c.func) != "self._r":
+            continue
+        dv = arg_of(c, None, "default_value")
+        if dv is None:
+            continue
+        firsts = [x for x in ast.walk(dv) if isinstance(x, ast.Subscript) and source.is_const(x.slice, 0)]
+        for x in firsts:
+            n_first += 1
+            coll = u(x.value)
+            ok = pat.guarded(c, f"len({coll}) == 1") is not None
+            chk.ob("O10.2", f"default `{short(dv, 40)}` for '{source.const(c.args[1]) if len(c.args) > 1 and isinstance(c.args[1], ast.Constant) else '?'}' only when `{coll}` has exactly one element", ok, c,
+                   "" if ok else f"guards: {[u(f_) for f_ in pat.fact_nodes(c)]} — with several elements a missing mandatory target is silently replaced by the first one",
+                   key=f"{_L}:_create_corpora:first-element-default:{u(x)}")
+    chk.ob("O10.2", "first-element defaults located in _create_corpora", n_first >= 3, cr, f"{n_first} site(s)")
+
     # ---- O10.3 error helper -----------------------------------------------------------------------------------------------------------------------------------
     chk.rule("O10.3", "the error helper raises a track syntax error on every path", 1, "a detected rule violation is only logged and the invalid track is loaded")
     ef = sm["_error"]
@@ -263,6 +282,40 @@ def run(chk):
     sch = fm["__init__"]
     ok = any(isinstance(n, ast.Assign) and is_self_attr(n.targets[0], "track_schema") and "json.loads" in u(n.value) for n in walk_body(sch)) and any("track-schema.json" in u(n) for n in walk_body(sch))
     chk.ob("O10.4", "the schema is Rally's track-schema.json", ok, sch, "")
+    # sibling cross-check inside the schema: a task key is constrained identically wherever it may be written (plain task, parallel element, task inside a parallel element;
+    # corpus level and document level)
+    import json as _json
+
+    try:
+        sj = _json.loads(repo.text("esrally/resources/track-schema.json"))
+        items = sj["definitions"]["schedule"]["items"]["properties"]
+        par = items["parallel"]["properties"]
+        sub = par["tasks"]["items"]["properties"]
+        corp = sj["properties"]["corpora"]["items"]["properties"]
+        docs_ = corp["documents"]["items"]["properties"]
+    except (KeyError, ValueError, TypeError) as e:
+        raise AnchorMissing(f"task / parallel / corpus definitions in track-schema.json ({type(e).__name__}: {e})")
+
+    def _strip(o):
+        if isinstance(o, dict):
+            return {k_: _strip(v_) for k_, v_ in o.items() if k_ != "description"}
+        if isinstance(o, list):
+            return [_strip(x_) for x_ in o]
+        return o
+
+    n_sib = 0
+    for group, copies in (("task", (("plain task", items), ("parallel element", par), ("task in parallel", sub))), ("corpus", (("corpus", corp), ("document set", docs_)))):
+        for k_ in sorted(set().union(*[set(d_) for _, d_ in copies])):
+            if k_ in ("parallel", "tasks", "documents"):
+                continue
+            have = [(nm, _json.dumps(_strip(d_[k_]), sort_keys=True)) for nm, d_ in copies if k_ in d_]
+            if len(have) < 2:
+                continue
+            n_sib += 1
+            ok = len({v_ for _, v_ in have}) == 1
+            chk.ob("O10.4", f"schema: '{k_}' is constrained identically in every place it may be written ({group})", ok, sch,
+                   "" if ok else "; ".join(f"{nm}: {v_[:70]}" for nm, v_ in have) + " — a value rejected in one place is accepted in another", key=f"esrally/resources/track-schema.json:sibling:{group}:{k_}")
+    chk.ob("O10.4", "schema sibling definitions located", n_sib >= 14, sch, f"{n_sib} shared key(s)")
 
     # ---- O10.5 documented rules ------------------------------------------------------------------------------------------------------------------------------------
     chk.rule("O10.5", "documented rules reject: duplicate task / challenge / operation / corpus names (dedupe idiom: membership test on the set/dict the same loop fills); none or several default "
